@@ -196,12 +196,16 @@ def check_opreturn(proc, chain, coin, start=0, end=None, prefix="opreturn"):
                     return True
                 if not text.startswith(pre, pos):
                     return False
-                nxt = exp[i + 1][0] if i + 1 < len(exp) else None
-                j = text.find("\n" + nxt, pos + len(pre)) if nxt else len(text) - 1
-                if j < 0:
-                    return False
-                i, pos = i + 1, j + 1
-                continue
+                # line present with unpinned text: it ends at one of the following newlines (the text itself may
+                # contain newlines); try them in order
+                j = pos + len(pre) - 1
+                for _ in range(64):
+                    j = text.find("\n", j + 1)
+                    if j < 0:
+                        return False
+                    if match(i + 1, j + 1):
+                        return True
+                return False
             want = pre + txt + "\n"
             if not text.startswith(want, pos):
                 return False
